@@ -27,11 +27,50 @@ static void c09_on_release(int is_wait, pthread_cond_t *cond)
 	VERIF_ASSERT(0, "C09.lock.discipline");	/* no release in this section */
 }
 
+/* plain-field snapshot of everything a worker-side section must not write */
+typedef struct {
+	work_item_t *queue, *queue_last, *done, *safe_done, *safe_done_last;
+	work_item_t *recycle;
+	size_t next_ticket, next_dequeue_ticket, item_count, num_workers;
+	int status;
+	void *user[NW];
+	thread_pool_impl_t *wpool[NW];
+	work_item_t q[4], d[4], s[4], r[4];
+} c09_snap_t;
+
+static void c09_snap(c09_snap_t *b, unsigned g)
+{
+	thread_pool_impl_t *pool = POOL;
+	size_t i;
+
+	b->queue = pool->queue; b->queue_last = pool->queue_last;
+	b->done = pool->done; b->safe_done = pool->safe_done;
+	b->safe_done_last = pool->safe_done_last; b->recycle = pool->recycle;
+	b->next_ticket = pool->next_ticket;
+	b->next_dequeue_ticket = pool->next_dequeue_ticket;
+	b->item_count = pool->item_count; b->num_workers = pool->num_workers;
+	b->status = pool->status;
+	for (i = 0; i < NW; ++i) {
+		b->user[i] = g_pw.w[i].user;
+		b->wpool[i] = g_pw.w[i].pool;
+	}
+	for (i = 0; i < 4; ++i) {
+		b->q[i] = *QN(g, i); b->d[i] = *DN(g, i);
+		b->s[i] = *SN(i); b->r[i] = *RN(i);
+	}
+}
+
+static int c09_item_eq(const work_item_t *a, const work_item_t *b, int with_next)
+{
+	return a->ticket_number == b->ticket_number && a->data == b->data &&
+		(!with_next || a->next == b->next);
+}
+
 void harness(void)
 {
 	thread_pool_impl_t *pool = POOL;
-	c09_pool_t before;
-	work_item_t qn0[KQ], dn0[KD], sn0[KS], rn0[KR], mine0;
+	c09_snap_t b;
+	work_item_t mine0;
 	int st = verif_nd_int("worker_status");
 	size_t i;
 
@@ -44,32 +83,27 @@ void harness(void)
 	g_held = &g_mine;
 	g_locked = 1;
 	c09_build_shared();
-
-	before = g_pw;
+	c09_snap(&b, 0);
 	mine0 = g_mine;
-	for (i = 0; i < KQ; ++i) qn0[i] = g_qn[0][i];
-	for (i = 0; i < KD; ++i) dn0[i] = g_dn[0][i];
-	for (i = 0; i < KS; ++i) sn0[i] = g_sn[i];
-	for (i = 0; i < KR; ++i) rn0[i] = g_rn[i];
 
-	VERIF_COVER(s_dn == KD && s_qn == KQ);
-	VERIF_COVER(s_dn > 0 && g_mine.ticket_number < g_dn[0][0].ticket_number);
-	VERIF_COVER(s_dn > 1 && g_mine.ticket_number > g_dn[0][0].ticket_number &&
-		    g_mine.ticket_number < g_dn[0][1].ticket_number);
-	VERIF_COVER(s_dn > 0 && g_mine.ticket_number > g_dn[0][s_dn - 1].ticket_number);
+	VERIF_COVER(s_dn == KD && s_qn == KQ && g_ow_n == NW - 1);
+	VERIF_COVER(s_dn > 0 && g_mine.ticket_number < s_d[0]->ticket_number);
+	VERIF_COVER(s_dn > 1 && g_mine.ticket_number > s_d[0]->ticket_number &&
+		    g_mine.ticket_number < s_d[1]->ticket_number);
+	VERIF_COVER(s_dn > 0 && g_mine.ticket_number > s_d[s_dn - 1]->ticket_number);
 	VERIF_COVER(s_dn == 0);
 	VERIF_COVER(s_status != 0 && st != 0 && st != s_status);
 
 	store_completed(pool, &g_mine, st);
 
 	/* once: done' = done + item */
-	VERIF_ASSERT(c09_len(pool->done) == s_dn + 1, "C09.once");
-	VERIF_ASSERT(c09_has(pool->done, &g_mine), "C09.once");
+	VERIF_ASSERT(c09_len(pool->done, DMAX) == s_dn + 1, "C09.once");
+	VERIF_ASSERT(c09_has(pool->done, &g_mine, DMAX), "C09.once");
 	for (i = 0; i < KD; ++i) {
 		if (i < s_dn)
-			VERIF_ASSERT(c09_has(pool->done, s_d[i]), "C09.once");
+			VERIF_ASSERT(c09_has(pool->done, s_d[i], DMAX), "C09.once");
 	}
-	VERIF_ASSERT(c09_strictly_increasing(pool->done), "C09.once");
+	VERIF_ASSERT(c09_strictly_increasing(pool->done, DMAX), "C09.once");
 
 	VERIF_ASSERT(pool->status == (s_status != 0 ? s_status : st),
 		     "C09.store_completed.status_first");
@@ -77,36 +111,25 @@ void harness(void)
 	VERIF_ASSERT(g_locked, "C09.lock.discipline");
 
 	/* frame */
-	VERIF_ASSERT(pool->queue == before.p.queue &&
-		     pool->queue_last == before.p.queue_last &&
-		     pool->next_ticket == before.p.next_ticket &&
-		     pool->next_dequeue_ticket == before.p.next_dequeue_ticket,
+	VERIF_ASSERT(pool->queue == b.queue && pool->queue_last == b.queue_last &&
+		     pool->next_ticket == b.next_ticket &&
+		     pool->next_dequeue_ticket == b.next_dequeue_ticket,
 		     "C09.frame");
-	VERIF_ASSERT(pool->item_count == before.p.item_count &&
-		     pool->safe_done == before.p.safe_done &&
-		     pool->safe_done_last == before.p.safe_done_last &&
-		     pool->recycle == before.p.recycle &&
-		     pool->num_workers == before.p.num_workers, "C09.frame");
+	VERIF_ASSERT(pool->item_count == b.item_count &&
+		     pool->safe_done == b.safe_done &&
+		     pool->safe_done_last == b.safe_done_last &&
+		     pool->recycle == b.recycle &&
+		     pool->num_workers == b.num_workers, "C09.frame");
 	for (i = 0; i < NW; ++i)
-		VERIF_ASSERT(g_pw.w[i].user == before.w[i].user &&
-			     g_pw.w[i].pool == before.w[i].pool, "C09.frame");
-	for (i = 0; i < KQ; ++i)
-		VERIF_ASSERT(g_qn[0][i].next == qn0[i].next &&
-			     g_qn[0][i].ticket_number == qn0[i].ticket_number &&
-			     g_qn[0][i].data == qn0[i].data, "C09.frame");
-	for (i = 0; i < KD; ++i)
-		VERIF_ASSERT(g_dn[0][i].ticket_number == dn0[i].ticket_number &&
-			     g_dn[0][i].data == dn0[i].data, "C09.frame");
-	for (i = 0; i < KS; ++i)
-		VERIF_ASSERT(g_sn[i].next == sn0[i].next &&
-			     g_sn[i].ticket_number == sn0[i].ticket_number &&
-			     g_sn[i].data == sn0[i].data, "C09.frame");
-	for (i = 0; i < KR; ++i)
-		VERIF_ASSERT(g_rn[i].next == rn0[i].next &&
-			     g_rn[i].ticket_number == rn0[i].ticket_number &&
-			     g_rn[i].data == rn0[i].data, "C09.frame");
-	VERIF_ASSERT(g_mine.ticket_number == mine0.ticket_number &&
-		     g_mine.data == mine0.data, "C09.frame");
+		VERIF_ASSERT(g_pw.w[i].user == b.user[i] &&
+			     g_pw.w[i].pool == b.wpool[i], "C09.frame");
+	for (i = 0; i < 4; ++i) {
+		VERIF_ASSERT(c09_item_eq(QN(0, i), &b.q[i], 1), "C09.frame");
+		VERIF_ASSERT(c09_item_eq(DN(0, i), &b.d[i], 0), "C09.frame");
+		VERIF_ASSERT(c09_item_eq(SN(i), &b.s[i], 1), "C09.frame");
+		VERIF_ASSERT(c09_item_eq(RN(i), &b.r[i], 1), "C09.frame");
+	}
+	VERIF_ASSERT(c09_item_eq(&g_mine, &mine0, 0), "C09.frame");
 
 	/* INV with the item handed over */
 	g_held = NULL;
